@@ -212,6 +212,65 @@ pub fn run(args: &Args) {
             }
         }
     }
+    // ---- expression shapes in every expression position: an operand (incl. a call of an undefined name,
+    // which the checker accepts and replaces by 0) under every wrapper, in every place a statement takes
+    // an expression
+    {
+        let tail2 = "END\nFUNCTION F1% (N%)\nF1% = N% + 1\nEND FUNCTION\nSUB F2 (N%)\nEND SUB\n";
+        let atoms = ["UNDEF9(1)", "UNDEF9(A%, 2)", "F1%(2)", "ARR%(1)", "A%", "LEN(S$)", "P.X"];
+        let wrappers: [&dyn Fn(&str) -> String; 13] = [
+            &|x| x.to_string(),
+            &|x| format!("({})", x),
+            &|x| format!("-{}", x),
+            &|x| format!("NOT ({})", x),
+            &|x| format!("{} + 1", x),
+            &|x| format!("1 + ({})", x),
+            &|x| format!("ARR%({})", x),
+            &|x| format!("ARR%(({}))", x),
+            &|x| format!("LEN(STR$({}))", x),
+            &|x| format!("LEN(STR$(({})))", x),
+            &|x| format!("F1%({})", x),
+            &|x| format!("F1%(({}) + 0)", x),
+            &|x| format!("LEN(SA$({}))", x),
+        ];
+        let positions: [&dyn Fn(&str) -> String; 10] = [
+            &|w| format!("PRINT {}", w),
+            &|w| format!("A% = {}", w),
+            &|w| format!("ARR%({}) = 1", w),
+            &|w| format!("ARR%(({})) = {}", w, w),
+            &|w| format!("IF {} THEN PRINT 1", w),
+            &|w| format!("FOR I% = {} TO 1\nNEXT", w),
+            &|w| format!("SELECT CASE {}\nCASE 1\nPRINT 1\nEND SELECT", w),
+            &|w| format!("F2 {}", w),
+            &|w| format!("P.X = {}", w),
+            &|w| format!("SA$({}) = \"x\"", w),
+        ];
+        for a in atoms.iter() {
+            for wr in wrappers.iter() {
+                for po in positions.iter() {
+                    let stmt = po(&wr(a));
+                    let src = format!("{}{}\n{}", preamble, stmt, tail2);
+                    evaluations += 1;
+                    sum.count("shape_position_programs");
+                    match run_program(&src, &RunOpts { stdin: vec![], budget: 20_000, trace: false }) {
+                        Outcome::Ran(r) => {
+                            accepted += 1;
+                            sum.count("shape_position_accepted");
+                            if let End::Panic(m) = &r.end {
+                                sum.violation(ImplViolation { key: format!("panic:{}", panic_key(m)), input: stmt.replace('\n', " | "), expected: "a BASIC-level outcome".into(), observed: m.clone() });
+                            }
+                            sum.nontrivial(src.clone());
+                        }
+                        Outcome::FrontPanic { stage, msg } if stage == "generate" => {
+                            sum.violation(ImplViolation { key: format!("generator-panic:{}", panic_key(&msg)), input: stmt.replace('\n', " | "), expected: "an accepted program can be translated".into(), observed: msg });
+                        }
+                        Outcome::FrontPanic { .. } => sum.count("front_end_panic_(C07)"),
+                        _ => sum.count("shape_position_rejected"),
+                    }
+                }
+            }
+        }
+    }
     sum.histogram.insert("repertoire_accepted".into(), accepted as i128);
 
     // ---- procedural programs and the repository's programs
@@ -310,6 +369,6 @@ pub fn run(args: &Args) {
     sum.write(
         &args.out,
         evaluations,
-        "core programs: Safety.check_safe evaluated in Coq on the real instruction list (supported instructions only, the Coq abstraction equals the harness's, the certificate checks) so that the no-internal-failure theorem applies to it. Repertoire: generated programs calling 27 built-in function forms and 12 statement forms plus INPUT / LINE INPUT / READ+DATA / VIEW PRINT / PRINT USING / MID$ assignment with arguments drawn from 30 shapes (all literal types, boundary values, variables, array elements, whole arrays, record values and fields, parenthesised, nested calls), under optional ON ERROR RESUME NEXT, with 5 kinds of standard input incl. random bytes; procedural programs and the repository's programs; nine statements the checker rejects at the top level (PRINT of a record, a record in arithmetic, NEXT for another counter, an unknown member ...) placed in every block position one and two levels deep (THEN, ELSEIF, ELSE, CASE, CASE ELSE, FOR, WHILE, DO, SUB, FUNCTION). Every accepted program must end normally or with a BASIC error; panics are keyed by their message. Non-trivial = distinct accepted programs.",
+        "core programs: Safety.check_safe evaluated in Coq on the real instruction list (supported instructions only, the Coq abstraction equals the harness's, the certificate checks) so that the no-internal-failure theorem applies to it. Repertoire: generated programs calling 27 built-in function forms and 12 statement forms plus INPUT / LINE INPUT / READ+DATA / VIEW PRINT / PRINT USING / MID$ assignment with arguments drawn from 30 shapes (all literal types, boundary values, variables, array elements, whole arrays, record values and fields, parenthesised, nested calls), under optional ON ERROR RESUME NEXT, with 5 kinds of standard input incl. random bytes; procedural programs and the repository's programs; nine statements the checker rejects at the top level (PRINT of a record, a record in arithmetic, NEXT for another counter, an unknown member ...) placed in every block position one and two levels deep (THEN, ELSEIF, ELSE, CASE, CASE ELSE, FOR, WHILE, DO, SUB, FUNCTION). Every accepted program must end normally or with a BASIC error; panics are keyed by their message. Shape x position family: 7 operands (a call of an undefined name with one and two arguments, a user function, an array element, a variable, a built-in, a record field) under 13 wrappers (parentheses, unary minus, NOT, binary, array index, doubly parenthesised index, built-in and user-function arguments) in 10 expression positions of statements (PRINT, assignment, index of an assignment target, IF, FOR bound, SELECT, SUB argument, record field, string array index): no panic in the generator or the VM. Non-trivial = distinct accepted programs.",
     );
 }
